@@ -241,7 +241,8 @@ structure St where
   counter : Nat := counterStart
   file : String := "t.c"
   /-- ghost: some function-like expansion so far had a replacement list / argument combination outside
-      `NoPlacemarkerChain` (the region of known finding C09-placemarker).  Never read by the expander. -/
+      `NoPlacemarkerChain` (`p ## q ##` with both arguments empty: the placemarker loop of `subst` ran; formerly the region
+      of the repaired finding C09-placemarker).  Never read by the expander. -/
   pmHit : Bool := false
   /-- ghost: some function-like expansion stringized an argument outside `StringizeLiteralSafe` (a `\` or `"` outside
       a literal: the only arguments for which the result of `#` may fail to be a valid string literal, 6.10.3.2p2;
@@ -380,7 +381,8 @@ def emptyParam (args : List MacroArg) (t : Tok) : Bool :=
 
 /-- four consecutive tokens `p ## q ##` of a replacement list with `p` and `q` parameters whose arguments are both
     empty: C11 6.10.3.3 needs a placemarker here (placemarker ## placemarker = placemarker, which is then the left
-    operand of the next `##`); chibicc has no placemarker token -/
+    operand of the next `##`).  Before `fix:` 5a15c0f `subst` had nothing for it; now `skipEmptyOperands` below is the
+    loop that walks over such a run -/
 def hasPlacemarkerChain (args : List MacroArg) : List Tok → Bool
   | [] => false
   | p :: tl =>
@@ -388,7 +390,10 @@ def hasPlacemarkerChain (args : List MacroArg) : List Tok → Bool
      | h1 :: q :: h2 :: _ => emptyParam args p && h1.text == "##" && emptyParam args q && h2.text == "##"
      | _ => false) || hasPlacemarkerChain args tl
 
-/-- **the region outside known finding C09-placemarker** (decidable: a Boolean function of body and arguments) -/
+/-- no chain of `##` over two empty arguments in a row (decidable: a Boolean function of body and arguments).
+    Was: the region outside known finding C09-placemarker; since `fix:` 5a15c0f no theorem needs it (kept for the ghost flag
+    `St.pmHit`, with which the check counts how many compared cases exercise the placemarker loop, and for the repaired
+    witnesses in Findings/C09.lean) -/
 def NoPlacemarkerChain (body : List Tok) (args : List MacroArg) : Prop := hasPlacemarkerChain args body = false
 
 instance (body : List Tok) (args : List MacroArg) : Decidable (NoPlacemarkerChain body args) := by
@@ -691,7 +696,7 @@ def initSt (file : String := "t.c") : St := { defs := initDefs, file := file }
 def preprocess (fuel : Nat) (ts : List Tok) (file : String := "t.c") : Except Err (List Tok) :=
   (preprocess2 Lex.lexOne fuel (initSt file) ts).map (·.1)
 
-/-- ... together with the ghost flag `pmHit` -/
+/-- ... together with the ghost flags `pmHit` and `bsHit` -/
 def preprocessX (fuel : Nat) (ts : List Tok) (file : String := "t.c") : Except Err (List Tok × Bool × Bool) :=
   (preprocess2 Lex.lexOne fuel (initSt file) ts).map fun (out, st) => (out, st.pmHit, st.bsHit)
 
